@@ -41,7 +41,11 @@ const EVENTS: &[&str] = &[
 ];
 
 fn fmt_kv(r: &mut Rng, k: &str, v: &str, variant: Option<usize>) -> String {
-    match variant.unwrap_or_else(|| r.below(6)) {
+    match variant.unwrap_or_else(|| r.below(9)) {
+        // white space around key and value that is not ASCII (or not the usual ASCII): trimmed all the same
+        6 => format!("{k}:\u{3000}{v}"),
+        7 => format!("{k}:\u{a0}{v}\u{2003}"),
+        8 => format!("{k}\u{a0}:\u{b}{v}"),
         0 => format!("{k}:{v}"),
         1 => format!("{k}: {v}"),
         2 => format!("{k} : {v} "),
@@ -66,7 +70,7 @@ pub fn run(ctx: &mut Ctx) {
         // every key x every value class x every spelling, alone
         for k in keys {
             for v in VALS {
-                for variant in 0..6 {
+                for variant in 0..9 {
                     idx += 1;
                     if idx % ctx.nshards != ctx.shard {
                         continue;
@@ -137,7 +141,7 @@ pub fn run(ctx: &mut Ctx) {
     }
     ctx.report.exhaustive = Some(complete);
     ctx.note(format!(
-        "exhaustive part: every key x {} value classes x 6 spellings alone, every same-key ordered pair, all key pairs of Difficulty and Colours, all event singles/pairs/triples over {} event shapes ({idx} record lists over all shards)",
+        "exhaustive part: every key x {} value classes x 9 spellings alone, every same-key ordered pair, all key pairs of Difficulty and Colours, all event singles/pairs/triples over {} event shapes ({idx} record lists over all shards)",
         VALS.len(),
         EVENTS.len()
     ));
